@@ -1,7 +1,7 @@
 (* C12 - Mailbox deliveries are complete or absent: maildir atomic, mbox rolled back.
    Only statements; proofs are [exact <lemma>] from Local/MailboxProofs.v.
    Models (Local/Mailbox.v): qmail-local.c maildir_child()/mailfile(), gfrom.c, the reader of mbox(5). *)
-From NQ Require Import Local.Mailbox Local.MailboxProofs.
+From NQ Require Import Local.Mailbox Local.MailboxProofs Local.MailboxConc.
 Local Open Scope N_scope.
 
 (* maildir: for every content and fault plan, at every prefix of the writer's events and every crash
@@ -50,6 +50,54 @@ Theorem mbox_roundtrip : forall lo x lh msg,
   mbox_read old ++ [(s_From ++ x, hdr ++ msg_plus msg)].
 Proof. exact mbox_roundtrip_l. Qed.
 Print Assumptions mbox_roundtrip.
+
+(* ---- concurrent deliveries, for EVERY number of writers and EVERY schedule (Local/MailboxConc.v) ----
+   mbox: writers share one file; flock admits one holder; a step of writer i applies its next event exactly as in
+   the single-writer model (appends go to the end of the file, the roll-back truncates to the writer's own
+   remembered position).  At every instant the file is the old content, then the complete entries of the writers
+   that exited 0 in the order they took the lock, then a prefix of the current holder's entry: no interleaving,
+   nothing of a failed writer left behind. *)
+Theorem mbox_concurrent_never_interleaves : forall old l sched,
+  Forall (fun ef => bf_lock (snd ef) = false) l ->
+  let s := crun (mstart old l) sched in
+  exists k : nat,
+    c_file s = old ++ concat (map (entry_of l) (committed s)) ++
+               match c_lock s with None => [] | Some h => firstn k (entry_of l h) end.
+Proof. exact mbox_concurrent_no_interleaving. Qed.
+Print Assumptions mbox_concurrent_never_interleaves.
+Theorem mbox_concurrent_final_file : forall old l sched,
+  Forall (fun ef => bf_lock (snd ef) = false) l ->
+  let s := crun (mstart old l) sched in
+  all_finished s ->
+  c_lock s = None /\ c_file s = old ++ concat (map (entry_of l) (committed s)) /\ NoDup (committed s) /\
+  forall i, In i (committed s) <-> wexit (c_ws s) i = Some 0.
+Proof. exact mbox_concurrent_finished. Qed.
+Print Assumptions mbox_concurrent_final_file.
+Theorem mbox_concurrent_every_run_can_finish : forall old l sched,
+  Forall (fun ef => bf_lock (snd ef) = false) l ->
+  exists sched', all_finished (crun (mstart old l) (sched ++ sched')).
+Proof. exact mbox_concurrent_can_finish. Qed.
+Print Assumptions mbox_concurrent_every_run_can_finish.
+(* maildir: deliveries with distinct names share tmp/ and new/; every file visible in new/ under one of their
+   names is its writer's complete, fsynced content; foreign files are untouched; nobody's open_excl or link is
+   made to fail by another delivery *)
+Theorem maildir_concurrent_visible_is_complete : forall d0 l sched,
+  NoDup (map fst l) ->
+  (forall x, In x (map fst l) -> d_tmp d0 x = None /\ d_new d0 x = None) ->
+  let s := mcrun (mdstart d0 l) sched in
+  forall y a, d_new (ms_dir s) y = Some a ->
+    (exists i x content f, nth_error l i = Some (x, (content, f)) /\ y = x /\
+                 i_data (d_ino (ms_dir s) a) = content /\ i_synced (d_ino (ms_dir s) a) = length content)
+    \/ (~ In y (map fst l) /\ d_new d0 y = Some a /\ ((a < d_next d0)%nat -> d_ino (ms_dir s) a = d_ino d0 a)).
+Proof. exact maildir_concurrent_visible_complete. Qed.
+Print Assumptions maildir_concurrent_visible_is_complete.
+Theorem maildir_concurrent_deliveries_independent : forall d0 l sched,
+  NoDup (map fst l) ->
+  (forall x, In x (map fst l) -> d_tmp d0 x = None /\ d_new d0 x = None) ->
+  let s := mcrun (mdstart d0 l) sched in
+  ms_ok s = true /\ forall i w, nth_error (ms_ws s) i = Some w -> mproj (ms_dir s) w = mrun (mw_done w).
+Proof. exact maildir_concurrent_independent. Qed.
+Print Assumptions maildir_concurrent_deliveries_independent.
 
 Example mbox_nonvacuous :
   mbox_read (mbox_entry [70;114;111;109;32;97;32;100;10] [82;58;120;10] [70;114;111;109;32;109;101;10;62;70;114;111;109;32;122])
